@@ -62,6 +62,8 @@ pub struct CoeServer {
     info_rest: Vec<u8>,
     info_first: bool,
     pub responses: u64,
+    /// content that re-appears in the out mailbox every time it has been read (endless scripts)
+    pub refill_after_taken: Option<Vec<u8>>,
 }
 
 fn mbx_header(len: usize, counter: u8, ty: u8) -> Vec<u8> {
@@ -99,6 +101,7 @@ impl CoeServer {
             info_rest: Vec::new(),
             info_first: true,
             responses: 0,
+            refill_after_taken: None,
         }
     }
 
@@ -296,6 +299,12 @@ impl CoeServer {
 
     /// Called by the device when the out mailbox was read: push the next SDO-info fragment.
     pub fn after_taken(&mut self) {
+        if let Some(r) = self.refill_after_taken.clone() {
+            if self.out.is_none() && self.last_scripted.is_some() {
+                self.out = Some(r);
+                return;
+            }
+        }
         if !self.info_rest.is_empty() && self.out.is_none() {
             self.info_fragment(1);
         }
